@@ -128,12 +128,26 @@ def gen_probes(rnd, film, holes, n):
     for x in xs:
         px = x * hw + rnd.uniform(-0.03, 0.03)
         py = rnd.choice([-0.6, 0.6, 0.55]) * hh * (0.9 if film["kind"] == "box" else 0.6)
-        for hole in holes:
-            # keep clear of holes (bounding circle + margin)
-            c = hole.get("c", [0.0, 0.0])
-            rad = max(hole.get("a", 0), hole.get("b", 0), hole.get("w", 0) / 2, hole.get("h", 0) / 2) * 1.3
-            if (px - c[0]) ** 2 + (py - c[1]) ** 2 < rad**2:
-                py = (0.8 if py >= c[1] else -0.8) * hh * (1.0 if film["kind"] == "box" else 0.55)
+        def clear(qx, qy):
+            # inside the film with a margin, and clear of every hole (bounding circle + margin)
+            if film["kind"] == "box":
+                if abs(qx) > 0.93 * hw or abs(qy) > 0.93 * hh:
+                    return False
+            elif (qx / hw) ** 2 + (qy / hh) ** 2 > 0.8:
+                return False
+            for hole in holes:
+                c = hole.get("c", [0.0, 0.0])
+                rad = max(hole.get("a", 0), hole.get("b", 0), hole.get("w", 0) / 2, hole.get("h", 0) / 2) * 1.3
+                if (qx - c[0]) ** 2 + (qy - c[1]) ** 2 < rad**2:
+                    return False
+            return True
+
+        if not clear(px, py):
+            sy = 1.0 if film["kind"] == "box" else 0.55
+            for qx, qy in [(px, 0.8 * hh * sy), (px, -0.8 * hh * sy), (px + 0.25 * hw, py), (px - 0.25 * hw, py), (px + 0.25 * hw, -py), (px - 0.25 * hw, -py), (0.75 * hw * sy, 0.0), (-0.75 * hw * sy, 0.0)]:
+                if clear(qx, qy):
+                    px, py = qx, qy
+                    break
         pts.append([r3(px), r3(py)])
     return pts
 
@@ -426,14 +440,14 @@ def maybe_moved(rnd, scn, p=0.1):
     return scn
 
 
-def add_lifecycles(rnd, scn, p_derived=0.08, p_entry=0.12, p_used=0.06, p_prior=0.0, p_sibling=0.05):
+def add_lifecycles(rnd, scn, p_derived=0.08, p_entry=0.12, p_used=0.06, p_prior=0.0, p_sibling=0.05, p_metres=0.0):
     """Object life cycles every Engine-A workload shares (drawn from their own sub-stream, so the
     scenario a property's generator produced is left as it is): the Device handed to the solver is
     derived from the meshed one (copy / deep copy / pickled copy / identity transform + re-mesh), and
     the run is started through the convenience entry point tdgl.solve() instead of TDGLSolver()."""
     if isinstance(scn, dict) and isinstance(scn.get("base"), dict):
         # groups (C11): the life cycle belongs to the physics scenario every member executes
-        add_lifecycles(rnd, scn["base"], p_derived, p_entry, p_used, p_prior, p_sibling)
+        add_lifecycles(rnd, scn["base"], p_derived, p_entry, p_used, p_prior, p_sibling, p_metres)
         return scn
     if not isinstance(scn, dict) or scn.get("physics") != "real" or "device" not in scn:
         return scn
@@ -468,6 +482,8 @@ def add_lifecycles(rnd, scn, p_derived=0.08, p_entry=0.12, p_used=0.06, p_prior=
                 else:
                     pr["changed"][field] = rnd.choice([0, 2, 7])
         scn["options_prior_use"] = pr
+    if rnd.random() < p_metres and scn["device"]["length_units"] != "m" and not scn.get("reload_phase"):
+        in_metres(scn)
     if rnd.random() < p_sibling and not scn.get("sibling"):
         # a second solver alive on the same Device with another applied field (see maybe_sibling)
         maybe_sibling(rnd, scn, 1.0)
